@@ -390,6 +390,39 @@ impl AlternateTime {
         self.dst_end_time
     }
 
+    /// Returns `true` if the DST start time is before the DST end time, in the year nearest to the provided year where they differ.
+    ///
+    /// Consistent DST transition rules keep the same order every year, but the DST start and end times can be equal in some years.
+    /// If they are equal in every year, the DST period is always empty and this function returns `true`.
+    ///
+    pub(crate) const fn is_dst_start_first(&self, year: i32) -> bool {
+        // Overflow is not possible
+        let dst_start_time_in_utc = self.dst_start_time as i64 - self.std.ut_offset as i64;
+        let dst_end_time_in_utc = self.dst_end_time as i64 - self.dst.ut_offset as i64;
+
+        // Rule days follow the 400 years cycle of the Gregorian calendar
+        let mut year_offset = 0;
+        while year_offset <= 400 {
+            let mut sign = -1;
+            while sign <= 1 {
+                if let Some(other_year) = year.checked_add(sign * year_offset) {
+                    let dst_start_unix_time = self.dst_start.unix_time(other_year, dst_start_time_in_utc);
+                    let dst_end_unix_time = self.dst_end.unix_time(other_year, dst_end_time_in_utc);
+
+                    match cmp(dst_start_unix_time, dst_end_unix_time) {
+                        Ordering::Less => return true,
+                        Ordering::Greater => return false,
+                        Ordering::Equal => {}
+                    }
+                }
+                sign += 2;
+            }
+            year_offset += 1;
+        }
+
+        true
+    }
+
     /// Find the local time type associated to the alternate transition rule at the specified Unix time in seconds
     const fn find_local_time_type(&self, unix_time: i64) -> Result<&LocalTimeType, TzError> {
         // Overflow is not possible
@@ -412,8 +445,15 @@ impl AlternateTime {
         // Check DST start/end Unix times for previous/current/next years to support for transition day times outside of [0h, 24h] range.
         // This is sufficient since the absolute value of DST start/end time in UTC is less than 2 weeks.
         // Moreover, inconsistent DST transition rules are not allowed, so there won't be additional transitions at the year boundary.
-        let is_dst = match cmp(current_year_dst_start_unix_time, current_year_dst_end_unix_time) {
-            Ordering::Less | Ordering::Equal => {
+        // If the DST start and end times are equal in the current year, their order is taken from the nearest year where they differ
+        let dst_start_first = match cmp(current_year_dst_start_unix_time, current_year_dst_end_unix_time) {
+            Ordering::Less => true,
+            Ordering::Greater => false,
+            Ordering::Equal => self.is_dst_start_first(current_year),
+        };
+
+        let is_dst = match dst_start_first {
+            true => {
                 if unix_time < current_year_dst_start_unix_time {
                     let previous_year_dst_end_unix_time = self.dst_end.unix_time(current_year - 1, dst_end_time_in_utc);
                     if unix_time < previous_year_dst_end_unix_time {
@@ -434,7 +474,7 @@ impl AlternateTime {
                     }
                 }
             }
-            Ordering::Greater => {
+            false => {
                 if unix_time < current_year_dst_end_unix_time {
                     let previous_year_dst_start_unix_time = self.dst_start.unix_time(current_year - 1, dst_start_time_in_utc);
                     if unix_time < previous_year_dst_start_unix_time {
